@@ -29,8 +29,9 @@ class GattWorld:
     The server device has no default GAP/GATT services: its database is exactly what
     `set_database(spec)` adds."""
 
-    def __init__(self, n=2, server=1, seed=0, eatt=False):
+    def __init__(self, n=2, server=1, seed=0, eatt=False, defaults=False):
         self.n, self.sidx, self.seed, self.want_eatt = n, server, seed, eatt
+        self.defaults = defaults  # keep bumble's default GAP + GATT services in front of the enumerated database
         self.world = None
         self.objs = []  # real attribute objects, row order
         self.cells = {}  # row index -> Cell
@@ -41,8 +42,8 @@ class GattWorld:
         from bumble.device import DeviceConfiguration
 
         cfg = DeviceConfiguration()
-        cfg.gap_service_enabled = False
-        cfg.gatt_service_enabled = False
+        cfg.gap_service_enabled = self.defaults
+        cfg.gatt_service_enabled = self.defaults
         self.world = World(self.n, seed=self.seed, device_kwargs={self.sidx: {'config': cfg}})
         self.world.__enter__()
         try:
@@ -50,7 +51,7 @@ class GattWorld:
             self.world.power_on()
             self.server_dev = self.world.devices[self.sidx]
             self.server = self.server_dev.gatt_server
-            if self.server.attributes:
+            if self.server.attributes and not self.defaults:
                 raise RuntimeError('server database not empty at start')
             if self.want_eatt:
                 self.server.register_eatt()
@@ -117,14 +118,56 @@ class GattWorld:
             if s.get('reg', 1) and objs[si] not in self.server.services:
                 self.server.add_service(objs[si])
         attrs = list(self.server.attributes)
-        model.bind([a.handle for a in attrs])
         self.objs = attrs
+        if self.defaults:
+            self.cells = {}
+            self.model = self.adopt()
+            return self.model
+        model.bind([a.handle for a in attrs])
         self.cells = {}
         for r in model.rows:
             if r['kind'] == 'chr_value' and r.get('dyn'):
                 self.cells[r['i']] = cells_by_key[(r['sidx'], r['cidx'])]
         self.model = model
         return model
+
+    def adopt(self) -> M.Model:
+        """Reference built from the Python objects the server database consists of (used when
+        bumble's default services are present): kinds, UUIDs, properties and static values are
+        read from the objects; order-derived grouping and declaration values are the model's."""
+        from bumble import att, gatt
+
+        rows = []
+        sidx_of = {}
+        for a in self.objs:
+            if isinstance(a, gatt.Service):
+                sidx_of[id(a)] = len(sidx_of)
+        cur = None
+        cidx = -1
+        for a in self.objs:
+            static = bytes(a.value) if isinstance(a.value, (bytes, bytearray)) else (b'' if a.value is None else None)
+            if isinstance(a, gatt.Service):
+                cur = sidx_of[id(a)]
+                cidx = -1
+                raw = bytes(a.uuid.uuid_bytes)
+                rows.append({'kind': 'service', 'sidx': cur, 'primary': bool(a.primary), 'type': M.h16(M.T_PRIMARY if a.primary else M.T_SECONDARY),
+                             'uuid': raw, 'w': len(raw) * 8, 'value': M.wire(raw), 'handle': a.handle})
+            elif isinstance(a, gatt.IncludedServiceDeclaration):
+                rows.append({'kind': 'include', 'sidx': cur, 'target': sidx_of[id(a.service)], 'type': M.h16(M.T_INCLUDE), 'w': len(a.service.uuid.uuid_bytes) * 8, 'handle': a.handle})
+            elif isinstance(a, gatt.CharacteristicDeclaration):
+                cidx += 1
+                raw = bytes(a.characteristic.uuid.uuid_bytes)
+                rows.append({'kind': 'chr_decl', 'sidx': cur, 'cidx': cidx, 'type': M.h16(M.T_CHARACTERISTIC), 'uuid': raw, 'w': len(raw) * 8,
+                             'props': int(a.characteristic.properties), 'handle': a.handle})
+            elif isinstance(a, gatt.Characteristic):
+                raw = bytes(a.uuid.uuid_bytes)
+                rows.append({'kind': 'chr_value', 'sidx': cur, 'cidx': cidx, 'type': M.wire(raw), 'uuid': raw, 'w': len(raw) * 8, 'value': static, 'handle': a.handle})
+            else:
+                raw = bytes(a.type.uuid_bytes)
+                is_cccd = M.widen(raw) == M.widen(M.h16(M.T_CCCD)) and isinstance(a.value, att.AttributeValueV2)
+                rows.append({'kind': 'cccd' if is_cccd else 'descriptor', 'sidx': cur, 'cidx': cidx, 'type': M.wire(raw), 'w': len(raw) * 8,
+                             'value': b'\x00\x00' if is_cccd else static, 'handle': a.handle})
+        return M.Model(None, rows=rows)
 
     def layout_problems(self):
         """Row sequence of the model vs the attribute list the real server built
@@ -141,7 +184,9 @@ class GattWorld:
         if row['i'] in self.cells:
             return self.cells[row['i']].data
         v = self.objs[row['i']].value
-        return b'' if v is None else bytes(v)
+        if v is None:
+            return b''
+        return bytes(v) if isinstance(v, (bytes, bytearray)) else None  # None: computed by a function the harness does not own
 
     def set_server_value(self, row, data: bytes):
         if row['i'] in self.cells:
